@@ -673,7 +673,7 @@ func init() {
 		c05HistoryPassive(c)
 		c05T7Dwell(c)
 		c05LateWrite(c)
-		c10RacePublish(c, c.Pick(12, 60)) /* the deterministic Close-vs-publish race on every transport: C05's after-Close clause (seeded C05a-2 / C05b-2 / C05c-2) */
+		c10RacePublish(c, c.Pick(40, 200)) /* the deterministic Close-vs-publish race on every transport: C05's after-Close clause (seeded C05a-2 / C05b-2 / C05c-2) */
 	}
 }
 
